@@ -368,7 +368,10 @@ def free_client(cache, ci, rng, nops, Tt, reopen=None):
 
 def mode_b(dc, sc, res, rng, seed, topo, label, nclients, nops):
     d = sc.new()
-    setup = dc.Cache(d, disk_min_file_size=T)
+    # free runs also cover rollback-journal databases, where a committing writer keeps readers out for a moment
+    journal = rng.choice(['wal', 'wal', 'delete', 'truncate', 'persist'])
+    res.count('free_runs_journal_' + ('wal' if journal == 'wal' else 'rollback'))
+    setup = dc.Cache(d, disk_min_file_size=T, sqlite_journal_mode=journal)
     setup.close()
     ops = []
     if topo == 'processes':
@@ -440,7 +443,7 @@ def mode_b(dc, sc, res, rng, seed, topo, label, nclients, nops):
     if n_len != n_iter:
         # at quiescence the item count is the number of items: a difference is an update some completed call lost
         res.violation('after a free-running %s run len() is %d but %d keys are present' % (topo, n_len, n_iter),
-                      {'label': label})
+                      {'label': label, 'journal_mode': journal})
         return
     # overlap statistics
     overl = 0
@@ -454,7 +457,8 @@ def mode_b(dc, sc, res, rng, seed, topo, label, nclients, nops):
         res.seen('free_runs_with_overlap', (label, overl))
     for o in ops:
         if o['kind'] == 'raise' and o['result'] not in ALLOWED_EXC.get(o['op'], ()):
-            res.violation('%s raised %s in a free-running %s run' % (o['op'], o['result'], topo), {'label': label})
+            res.violation('%s raised %s in a free-running %s run' % (o['op'], o['result'], topo),
+                          {'label': label, 'journal_mode': journal})
             return
     # P-compositionality: check each key's sub-history on its own
     for k in keys:
@@ -470,7 +474,7 @@ def mode_b(dc, sc, res, rng, seed, topo, label, nclients, nops):
         res.count('evaluations')
         if not ok:
             res.violation('per-key history of %r from a free-running %s run is not linearizable' % (k, topo),
-                          {'label': label, 'checker': info, 'history': [
+                          {'label': label, 'journal_mode': journal, 'checker': info, 'history': [
                               {x: o[x] for x in ('client', 'op', 'args', 'call', 'ret', 'kind', 'result')}
                               for o in sorted(sub, key=lambda o: o['call'])][:200]})
             return
